@@ -711,7 +711,7 @@ impl Property for C28 {
         "the client's offer is read from the wire (what the harness TLS server received)",
         "without overlap the only requirement on the server is that no cookies are issued",
     ];
-    const QUICK_CASES: u32 = 40_000;
+    const QUICK_CASES: u32 = 150_000;
     const THOROUGH_CASES: u32 = 1_200_000;
 
     fn strategy(_tier: Tier) -> BoxedStrategy<Case> {
